@@ -35,7 +35,7 @@ def replay_case(case):
     n, p, fn = case["n"], case["p"], case["fn"]
     fails = []
     means = [np.array(m, dtype=float) for m in case["means"]]
-    variances = [np.full(p, float(s) ** 2) for s in case["sds"]]
+    variances = [np.array([float(v) ** 2 for v in s], dtype=float) for s in case["sds"]]
     for variant in ("arrays", "scalars"):
         if variant == "scalars":
             if p != 1:
@@ -56,7 +56,7 @@ def replay_case(case):
             pos = [(int(a), int(b)) for a, b in case["pos"]]
             call = lambda seed, m=m_arg, v=v_arg: generate_anomalous_data(n, list(pos), m, v, random_state=seed)
             zero = lambda seed: generate_changing_data(n, [], [np.zeros(p)], [np.ones(p)], random_state=seed)
-        tag = {"fn": fn, "variant": variant, "pos": case["pos"], "nmeans": case["nmeans"], "nvars": case["nvars"]}
+        tag = {"fn": fn, "variant": variant, "profile": case.get("profile"), "pos": case["pos"], "nmeans": case["nmeans"], "nvars": case["nvars"]}
         try:
             out = call(11)
             outcome = "ok"
@@ -106,8 +106,8 @@ def alternating_and_outliers(seed):
         for L in range(1, 5):
             for p in range(1, 4):
                 for prop in (1.0, 0.5, 0.34):
+                  for mean, var in ((3.0, 4.0), (0.0, 4.0), (3.0, 1.0), (0.0, 1.0)):   # incl. parameters equal to the noise's own
                     n_eval += 1
-                    mean, var = 3.0, 4.0
                     try:
                         out = generate_alternating_data(nseg, L, p=p, mean=mean, variance=var, affected_proportion=prop, random_state=seed)
                         n = nseg * L
@@ -116,9 +116,9 @@ def alternating_and_outliers(seed):
                         want = z.copy()
                         for i in range(n):
                             if (i // L) % 2 == 1:
-                                want[i, :naff] = mean + 2.0 * z[i, :naff]
+                                want[i, :naff] = mean + np.sqrt(var) * z[i, :naff]
                         if out.shape != (n, p) or not np.allclose(out.to_numpy(), want, rtol=1e-12, atol=1e-12):
-                            fails.append(("alternating_segments_misplaced", {"n_segments": nseg, "segment_length": L, "p": p, "prop": prop}))
+                            fails.append(("alternating_segments_misplaced", {"n_segments": nseg, "segment_length": L, "p": p, "prop": prop, "mean": mean, "variance": var}))
                         if not generate_alternating_data(nseg, L, p=p, mean=mean, variance=var, affected_proportion=prop, random_state=seed).equals(out):
                             fails.append(("not_reproducible_for_the_same_seed", {"fn": "alternating"}))
                     except Exception as e:
@@ -154,11 +154,13 @@ def run(tier: str) -> int:
         cfgs.append(("N1-P2", dict(N=1, P=2, MaxK=1), 1, None))
         cases = []
         for label, c, nsl, slices in cfgs:
-            cs = dict(c, Check="code", Emit=False, NSlices=1, Slice=0)
-            stages.model_check(chk, "Generators", cs, INVS + ["FloorRowsAdmitted"], wd=wd, label="A:" + label)
             if slices is not None:
                 slices = sorted({(s + chk.seed) % nsl for s in slices})
-            cases += stages.emit_cases(chk, "Generators", dict(c, Check="code"), wd=wd, label="B:" + label, nslices=nsl, slices=slices)
+            for profile in ("distinct", "identity_mixed"):
+                cs = dict(c, Check="code", Emit=False, NSlices=1, Slice=0, Profile=profile)
+                stages.model_check(chk, "Generators", cs, INVS + ["FloorRowsAdmitted"], wd=wd, label=f"A:{label}-{profile}")
+                cases += stages.emit_cases(chk, "Generators", dict(c, Check="code", Profile=profile), wd=wd, label=f"B:{label}-{profile}",
+                                           nslices=nsl, slices=slices)
         with ProcessPoolExecutor(max_workers=stages.NCPU) as ex:
             chunks = [cases[i::64] for i in range(64) if cases[i::64]]
             for chunk, ress in zip(chunks, ex.map(_chunk, chunks)):
@@ -189,7 +191,7 @@ TNext == /\\ tid < Len(Cases) /\\ tid' = tid + 1
          /\\ UNCHANGED <<fn, pos, nmeans, nvars, outcome, rowmap, k, pc>>
 ====
 """
-        cfg = tlc.cfg_text(dict(N=4, P=1, MaxK=1, Check="code", Emit=False, NSlices=1, Slice=0), init="TInit", next_="TNext")
+        cfg = tlc.cfg_text(dict(N=4, P=1, MaxK=1, Check="code", Emit=False, NSlices=1, Slice=0, Profile="distinct"), init="TInit", next_="TNext")
         cfg = cfg.replace("INIT TInit", "INIT TInitAll")
         module = module.replace("TInit == tid = 0", "TInitAll == Init /\\ pos = <<>> /\\ fn = \"changing\" /\\ nmeans = 1 /\\ nvars = 1 /\\ tid = 0")
         res = tlc.run("Trace_Outliers", cfg, workdir=wd, workers=1, env={"TRACE_FILE": path}, extra_modules={"Trace_Outliers.tla": module},
